@@ -60,6 +60,8 @@ type Exec struct {
 	ghostSorts map[string]string
 	ghostIdx map[string]string
 	boxAx map[string]bool
+	acqCache map[*ssa.Function]bool
+	nGuard, nGuardSyntactic, nLockOps int
 	entryAlloc Term
 	topCt *Contract
 	nepoch int
@@ -827,10 +829,17 @@ func (e *Exec) merge(ins []edgeIn) *State {
 			e.unsupported("conditionally registered defer")
 		}
 	}
-	for _, in := range ins {
-		for k, v := range in.st.locks {
-			if v > out.locks[k] {
-				out.locks[k] = v
+	// held locks: those held on every incoming path (in the weaker of the modes)
+	for k, v := range ins[0].st.locks {
+		out.locks[k] = v
+	}
+	for _, in := range ins[1:] {
+		for k, v := range out.locks {
+			w, ok := in.st.locks[k]
+			if !ok {
+				delete(out.locks, k)
+			} else if w < v {
+				out.locks[k] = w
 			}
 		}
 	}
